@@ -309,14 +309,15 @@ DIRECTED = [
      "expect": ["hint:suffix-retained:reprint-differs"]},  # clone-print-differs until e3d6a19 (clone copies the stored hint)
     {"name": "non-ascii", "ir": _M3, "vhints": ["a\u00e9", None, "_\u4e2d1"], "expect": ["hint:non-ascii:reparse-fail"]},
     {"name": "non-ascii-block-label-cut-short", "ir": _R3.replace("[^bb1, ^bb2]", "[^bb1]"), "bhints": [None, None, "a", "a\u00b2"],
-     "expect": ["hint:non-ascii:reparse-crash", "hint:block-hint:clone-print-differs"]},
+     "expect": ["hint:non-ascii:reparse-fail", "hint:block-hint:clone-print-differs"]},  # KeyError in _parse_block until the parser fix
     {"name": "stripped-to-empty", "ir": _M3, "vhints": ["_0", None, None], "expect": []},  # clone crashed (ValueError) until e3d6a19
     {"name": "block-default-collision", "ir": _R3, "bhints": [None, None, None, "bb1"],
-     "expect": ["hint:block-default-name:reparse-crash", "hint:block-hint:clone-print-differs"]},
+     "expect": ["hint:block-default-name:reparse-fail", "hint:block-hint:clone-print-differs"]},  # KeyError until the parser fix
     {"name": "block-default-redeclared", "ir": _R3.replace("[^bb1, ^bb2]", ""), "bhints": [None, None, None, "bb1"],
      "expect": ["hint:block-default-name:reparse-fail", "hint:block-hint:clone-print-differs"]},
     {"name": "block-default-reprint", "ir": _R1, "bhints": [None, "bb7"],
      "expect": ["hint:block-default-name:reprint-differs", "hint:block-hint:clone-print-differs"]},
+    {"name": "same-hint-blocks", "ir": _R3, "bhints": [None, None, "x", "x"], "expect": ["hint:block-hint:clone-print-differs"]},
     {"name": "block-hint-clone", "ir": _R1, "bhints": [None, "entry"], "expect": ["hint:block-hint:clone-print-differs"]},
     {"name": "block-hint-elided-label", "ir": _R1, "bhints": ["x", "x"],
      "expect": ["hint:block-hint:reprint-differs", "hint:block-hint:clone-print-differs"]},
